@@ -10,6 +10,7 @@ import os
 for _v in ("OMP_NUM_THREADS", "OPENBLAS_NUM_THREADS", "MKL_NUM_THREADS"):
     os.environ.setdefault(_v, "1")
 import copy
+import itertools
 import json
 import math
 import os
@@ -91,6 +92,172 @@ def gen_history(rng, tier):
             for rd in ("avg", "states", "final", "info"):
                 ops.append({"op": rd, "k": k})
     return {"T": T, "ops": ops}
+
+
+def systematic_histories():
+    """two operands with the same options, every option set x who was read before the merge x who holds a deterministic
+    trajectory x merge weight: the lazily built sums are in every combination of built / not built when merge runs"""
+    vals = lambda a: [[fstr(F(a + t, 8)) for t in range(2)], [fstr(F(8 - a - t, 8)) for t in range(2)]]      # noqa: E731
+    for keep, ss, sf in itertools.product((False, True), (None, True, False), (False, True)):
+        for askx, asky in itertools.product((False, True), repeat=2):
+            for detx, dety in itertools.product((False, True), repeat=2):
+                for pw in (None, F(1, 4)):
+                    o = {"keep": keep, "ss": ss, "sf": sf, "eops": True}
+                    ops = [{"op": "new", "k": 0, **o}, {"op": "new", "k": 1, **o}]
+                    sd = 100
+                    for k, det, ask, base in ((0, detx, askx, 1), (1, dety, asky, 3)):
+                        for j in range(2):
+                            sd += 1
+                            ops.append({"op": "add", "k": k, "seed": sd, "vals": vals(base + j), "w": fstr(F(1 + j, 2))})
+                        if det:
+                            ops.append({"op": "add_det", "k": k, "vals": vals(base + 2), "w": fstr(F(1, 4))})
+                        if ask:
+                            ops += [{"op": "final", "k": k}, {"op": "states", "k": k}, {"op": "avg", "k": k}]
+                    ops.append({"op": "merge", "k": 2, "a": 0, "b": 1, "p": None if pw is None else fstr(pw)})
+                    ops.append({"op": "merge", "k": 3, "a": 1, "b": 0, "p": None if pw is None else fstr(pw)})
+                    for k in (2, 3, 0, 1):
+                        for rd in ("final", "states", "avg", "info"):
+                            ops.append({"op": rd, "k": k})
+                    yield {"T": 2, "ops": ops}
+
+
+def subclass_polling(rep, rng, tier):
+    """McResult / NmmcResult (every trajectory enters with its weight times its time-dependent trace): averages polled
+    while trajectories are still being added, after merges, and on a fresh object fed in another order, against the
+    weighted mean straight from the definition"""
+    import qutip
+    from qutip.solver.result import Result
+    from qutip.solver.multitrajresult import MultiTrajResult, McResult, NmmcResult
+    viol = []
+    TL = [0.0, 0.5, 1.0]
+    eops = [qutip.Qobj(np.diag([1., 0., 0.])), qutip.Qobj(np.diag([0., 1., 2.]))]
+
+    def mk(opts, j):
+        tr = Result(eops, opts)
+        for i, t in enumerate(TL):
+            d = np.array([((3 * j + i) % 8) / 8.0, ((5 * j + 2 * i + 1) % 8) / 8.0, ((j + i) % 4) / 4.0])
+            tr.add(t, qutip.Qobj(np.diag(d)))
+        tr.collapse = [(0.25, 0)]
+        tr.trace = [[0.5, 1.0, 1.5, 2.0, 0.25][(j + i) % 5] for i in range(len(TL))]
+        return tr
+
+    def diag(q):
+        return np.real(np.diag(q.full()))
+
+    def ref(det, sam, with_trace):
+        n = max(len(sam), 1)
+        st = np.zeros((len(TL), 3))
+        ex = np.zeros((2, len(TL)))
+        for lst, div in ((det, 1), (sam, n)):
+            for tr, w in lst:
+                for i in range(len(TL)):
+                    mu = tr.trace[i] if with_trace else 1.0
+                    st[i] += (w / div) * mu * diag(tr.states[i]) if tr.states else 0
+                    for e in range(2):
+                        ex[e, i] += (w / div) * mu * np.real(tr.expect[e][i])
+        return st, ex
+
+    def ref_states_from(det, sam, with_trace, opts):
+        # states may not be stored on the trajectories: rebuild the data from the generator formula instead
+        return ref(det, sam, with_trace)
+
+    for cls in (MultiTrajResult, McResult, NmmcResult):
+        with_trace = cls is NmmcResult
+        for keep, ss, sf in itertools.product((True, False), (True, False), (True, False)):
+            opts = {"store_states": ss, "store_final_state": sf, "keep_runs_results": keep, "normalize_output": False, "progress_bar": "", "progress_kwargs": {}}
+            full = dict(opts, store_states=True, store_final_state=True)
+            stats = {"num_collapse": 1, "run time": 0.0}
+
+            def fresh():
+                return cls(eops, opts, stats=dict(stats))
+
+            def check(obj, det, sam, label):
+                # the reference uses fully stored copies of the same trajectories
+                st, ex = ref([(mk(full, j), w) for j, w in det], [(mk(full, j), w) for j, w in sam], with_trace)
+                rep.evaluations += 1
+                rep.count("subclass-poll=" + cls.__name__)
+                try:
+                    got_e = np.real(np.array(obj.average_expect))
+                    if got_e.shape != ex.shape or np.abs(got_e - ex).max() > 1e-9:
+                        viol.append((f"poll-expect:{cls.__name__}", f"{label}: average_expect is not the weighted mean of the trajectories added so far (off by {np.abs(got_e - ex).max():.2e})"))
+                    if ss:
+                        got_s = np.array([diag(x) for x in obj.average_states])
+                        if np.abs(got_s - st).max() > 1e-9:
+                            viol.append((f"poll-states:{cls.__name__}", f"{label}: average_states is not the weighted mean of the trajectories added so far (off by {np.abs(got_s - st).max():.2e})"))
+                    if ss or sf:
+                        got_f = diag(obj.average_final_state)
+                        if np.abs(got_f - st[-1]).max() > 1e-9:
+                            viol.append((f"poll-final:{cls.__name__}", f"{label}: average_final_state is not the weighted mean of the trajectories added so far (off by {np.abs(got_f - st[-1]).max():.2e})"))
+                    if with_trace:
+                        n = max(len(sam), 1)
+                        wt = np.zeros(len(TL))
+                        for j, w in det:
+                            wt += w * np.array(mk(full, j).trace)
+                        for j, w in sam:
+                            wt += (w / n) * np.array(mk(full, j).trace)
+                        if np.abs(np.array(obj.average_trace) - wt).max() > 1e-9:
+                            viol.append((f"poll-trace:{cls.__name__}", f"{label}: average_trace is not the weighted mean of the traces added so far"))
+                except Exception as e:      # noqa
+                    viol.append((f"poll-raises:{cls.__name__}", f"{label}: {type(e).__name__}: {e}"[:200]))
+
+            lab = f"{cls.__name__}(keep={keep}, store_states={ss}, store_final_state={sf})"
+            obj, det, sam = fresh(), [], []
+            plan = [("det", 0, 0.25), ("add", 1, 0.5), ("add", 2, 1.5), ("poll",), ("add", 3, 1.0), ("add", 4, 0.75), ("poll",),
+                    ("det", 6, 0.125), ("add", 5, 1.25), ("poll",), ("poll",)]
+            if rng.random() < 0.5:
+                plan = [plan[1], plan[3], plan[0]] + plan[4:]
+            for step in plan:
+                if step[0] == "det":
+                    obj.add_deterministic(mk(opts, step[1]), step[2])
+                    det.append((step[1], step[2]))
+                elif step[0] == "add":
+                    obj.add((step[1], mk(opts, step[1]), step[2]))
+                    sam.append((step[1], step[2]))
+                else:
+                    check(obj, det, sam, f"{lab} polled after {len(det)} deterministic and {len(sam)} sampled trajectories")
+            # a fresh object fed in another order, never polled in between
+            other = fresh()
+            for j, w in reversed(sam):
+                other.add((j, mk(opts, j), w))
+            for j, w in reversed(det):
+                other.add_deterministic(mk(opts, j), w)
+            check(other, det, sam, f"{lab} fed in reverse order")
+            # merge of two polled / unpolled halves: p x first + (1 - p) x second
+            for polled_a, polled_b in itertools.product((False, True), repeat=2):
+                A, B = fresh(), fresh()
+                da, sa_, db, sb = [(0, 0.25)], [(1, 0.5), (2, 1.5)], [], [(3, 1.0), (4, 0.75), (5, 1.25)]
+                for j, w in da:
+                    A.add_deterministic(mk(opts, j), w)
+                for j, w in sa_:
+                    A.add((j, mk(opts, j), w))
+                for j, w in sb:
+                    B.add((j, mk(opts, j), w))
+                try:
+                    if polled_a:
+                        A.average_final_state if (ss or sf) else None
+                        A.average_states if ss else None
+                    if polled_b:
+                        B.average_final_state if (ss or sf) else None
+                        B.average_states if ss else None
+                    for X, Y, dx, sx, dy, sy in ((A, B, da, sa_, db, sb), (B, A, db, sb, da, sa_)):
+                        for pw in (None, 0.25):
+                            M_ = X.merge(Y, pw)
+                            pe = len(sx) / (len(sx) + len(sy)) if pw is None else pw
+                            stx, exx = ref([(mk(full, j), w) for j, w in dx], [(mk(full, j), w) for j, w in sx], with_trace)
+                            sty, exy = ref([(mk(full, j), w) for j, w in dy], [(mk(full, j), w) for j, w in sy], with_trace)
+                            st, ex = pe * stx + (1 - pe) * sty, pe * exx + (1 - pe) * exy
+                            rep.evaluations += 1
+                            got_e = np.real(np.array(M_.average_expect))
+                            what = f"{lab}: merge(p={pw}) of operands (first polled: {polled_a}, second polled: {polled_b})"
+                            if np.abs(got_e - ex).max() > 1e-9:
+                                viol.append((f"merge-expect:{cls.__name__}", f"{what}: average_expect is not the p : 1-p mixture (off by {np.abs(got_e - ex).max():.2e})"))
+                            if ss and np.abs(np.array([diag(x) for x in M_.average_states]) - st).max() > 1e-9:
+                                viol.append((f"merge-states:{cls.__name__}", f"{what}: average_states is not the p : 1-p mixture"))
+                            if (ss or sf) and np.abs(diag(M_.average_final_state) - st[-1]).max() > 1e-9:
+                                viol.append((f"merge-final:{cls.__name__}", f"{what}: average_final_state is not the p : 1-p mixture (off by {np.abs(diag(M_.average_final_state) - st[-1]).max():.2e})"))
+                except Exception as e:      # noqa
+                    viol.append((f"merge-raises:{cls.__name__}", f"{lab}: merge raises {type(e).__name__}: {e}"[:200]))
+    return viol
 
 
 def nontrivial(h):
@@ -434,7 +601,10 @@ def run(tier, seed, replay):
     if replay:
         cases = [json.load(open(replay))["replay"]["case"]]
     else:
-        cases = corpus_cases() + [gen_history(rng, tier) for _ in range(300 if tier == "quick" else 2500)]
+        sysh = list(systematic_histories())
+        if tier == "quick":
+            sysh = [sysh[int(i)] for i in rng.choice(len(sysh), size=96, replace=False)]
+        cases = corpus_cases() + sysh + [gen_history(rng, tier) for _ in range(300 if tier == "quick" else 2500)]
     # run the implementation first; a history ends at the first add that raises (the object is then
     # only partly updated and nothing is claimed about it)
     reals = []
@@ -494,6 +664,12 @@ def run(tier, seed, replay):
             ndis += 1
             if first_dis is None:
                 first_dis = {"case": h, "disagreements": d[:5]}
+    if not replay:
+        seen_sig = set()
+        for sig, what in subclass_polling(rep, rng, tier):
+            if sig not in seen_sig:
+                seen_sig.add(sig)
+                rep.violation(core.Violation("C15:" + sig, what, {"what": what}))
     rep.notes["correspondence_disagreements"] = ndis
     if ndis:
         rep.broken.append({"kind": "correspondence", "which": "C15.history", "count": ndis, "first": first_dis})
